@@ -66,8 +66,75 @@ func pointNonEmptyGuard(in ssa.Instruction, base ssa.Value) (string, bool) {
 				}
 			}
 		}
+		// a flag handed back by a later helper that received IsEmpty() of the same point
+		// and answers true only where that was false ("a body must follow")
+		if g.Truth {
+			var hc *ssa.Call
+			ri := 0
+			switch x := g.Cond.(type) {
+			case *ssa.Extract:
+				hc, _ = x.Tuple.(*ssa.Call)
+				ri = x.Index
+			case *ssa.Call:
+				hc = x
+			}
+			if hc != nil {
+				if h := staticCallee(hc); h != nil && isNewHelper(h) {
+					for _, pj := range trueOnlyWhereParamFalse(h, ri) {
+						if pj >= len(hc.Call.Args) {
+							continue
+						}
+						if c, ok := isCallTo(hc.Call.Args[pj], "geom.(Point).IsEmpty"); ok {
+							b, _ := baseObject(c.Call.Args[0])
+							if b == base || sameValue(c.Call.Args[0], base) {
+								return "guard: " + FuncName(h) + " answers true only for !IsEmpty()", true
+							}
+						}
+					}
+				}
+			}
+		}
 	}
 	return "", false
+}
+
+// trueOnlyWhereParamFalse lists the bool parameters p of h such that result #ri of h can be
+// true only on paths where p is false: every return hands back the constant false there, or
+// is dominated by the test of p having failed.
+func trueOnlyWhereParamFalse(h *ssa.Function, ri int) []int {
+	var out []int
+	for pj, par := range h.Params {
+		if !isBoolT(par.Type()) {
+			continue
+		}
+		all, some := true, false
+		for _, r := range returnsOf(h) {
+			if ri >= len(r.Results) {
+				all = false
+				break
+			}
+			if k, ok := r.Results[ri].(*ssa.Const); ok && k.Value != nil && k.Value.String() == "false" {
+				continue
+			}
+			guarded := false
+			for _, g := range guardsAt(r) {
+				for _, ge := range expandGuard(g) {
+					if ge.Cond == ssa.Value(par) && !ge.Truth {
+						guarded = true
+					}
+				}
+			}
+			if !guarded {
+				all = false
+				break
+			}
+			some = true
+		}
+		if all && some {
+			out = append(out, pj)
+		}
+	}
+	return out
 }
 
 func runC07EmptyPoint(c *Ctx) {
@@ -968,45 +1035,69 @@ func madeNonEmpty(at ssa.Instruction, list ssa.Value) bool {
 		}
 		return false
 	case *ssa.Call:
-		// a repository helper that returns a slice made with the length of one of
-		// its slice parameters: the result is as long as that argument
-		cal := staticCallee(x)
-		if cal == nil || cal.Blocks == nil {
-			return false
+		return helperMadeNonEmpty(at, x, 0, false)
+	case *ssa.Extract:
+		// the list half of a (list, error) helper result
+		if cl, ok := x.Tuple.(*ssa.Call); ok {
+			return helperMadeNonEmpty(at, cl, x.Index, true)
 		}
-		idx := -1
-		for _, r := range returnsOf(cal) {
-			if len(r.Results) != 1 {
-				return false
-			}
-			ms, ok := stripLoad(r.Results[0]).(*ssa.MakeSlice)
-			if !ok {
-				return false
-			}
-			l := ms.Len
-			if cv, ok := l.(*ssa.Convert); ok {
-				l = cv.X
-			}
-			arg, ok := lenOf(l)
-			if !ok {
-				return false
-			}
-			par, ok := arg.(*ssa.Parameter)
-			if !ok {
-				return false
-			}
-			k := paramIndex(cal, par)
-			if k < 0 || (idx >= 0 && idx != k) {
-				return false
-			}
-			idx = k
-		}
-		if idx < 0 || idx >= len(x.Call.Args) {
-			return false
-		}
-		return nonEmptyGuard(at, x.Call.Args[idx])
 	}
 	return false
+}
+
+// helperMadeNonEmpty: a repository helper whose result #ri is, on every path that does not
+// report an error, a slice made with the length of one of its slice parameters or with one
+// of its integer parameters as length: the result is as long as that argument says, so it
+// is non-empty when the call site establishes that for the argument.
+func helperMadeNonEmpty(at ssa.Instruction, x *ssa.Call, ri int, tuple bool) bool {
+	cal := staticCallee(x)
+	if cal == nil || cal.Blocks == nil {
+		return false
+	}
+	idx, byLen := -1, false
+	for _, r := range returnsOf(cal) {
+		if (!tuple && len(r.Results) != 1) || ri >= len(r.Results) {
+			return false
+		}
+		if tuple {
+			// error paths hand back no list that anyone may use
+			last := r.Results[len(r.Results)-1]
+			if isErrorType(last.Type()) && provablyNonNilErr(r) {
+				continue
+			}
+		}
+		ms, ok := stripLoad(r.Results[ri]).(*ssa.MakeSlice)
+		if !ok {
+			return false
+		}
+		l := ms.Len
+		if cv, ok := l.(*ssa.Convert); ok {
+			l = cv.X
+		}
+		var par *ssa.Parameter
+		isLen := false
+		if arg, ok := lenOf(l); ok {
+			par, _ = arg.(*ssa.Parameter)
+			isLen = true
+		} else {
+			par, _ = l.(*ssa.Parameter)
+		}
+		if par == nil {
+			return false
+		}
+		k := paramIndex(cal, par)
+		if k < 0 || (idx >= 0 && (idx != k || byLen != isLen)) {
+			return false
+		}
+		idx, byLen = k, isLen
+	}
+	if idx < 0 || idx >= len(x.Call.Args) {
+		return false
+	}
+	if byLen {
+		return nonEmptyGuard(at, x.Call.Args[idx])
+	}
+	return nonZeroAt(at, x.Call.Args[idx], 0)
 }
 
 // nonZeroAt: the integer value l is known to be non-zero at `at`: a dominating
@@ -1284,6 +1375,16 @@ func loopAppendedNonEmpty(at ssa.Instruction, list ssa.Value) bool {
 			continue
 		}
 		inside++
+		if ex, isEx := e.(*ssa.Extract); isEx {
+			// the append happens in a helper that hands back (list, …, error): on every
+			// return that does not report an error the list is its parameter with something
+			// appended, the parameter is this list, and the loop goes round again only
+			// after the error was found nil
+			if helperAppendsTo(ex, phi, h.Preds[i]) {
+				continue
+			}
+			return false
+		}
 		call, ok := e.(*ssa.Call)
 		if !ok {
 			return false
@@ -1329,4 +1430,88 @@ func loopAppendedNonEmpty(at ssa.Instruction, list ssa.Value) bool {
 	}
 	// a counting loop `i < n` with n known to be non-zero
 	return nonZeroAt(at, bo.Y, 0)
+}
+
+// helperAppendsTo: ex is the list result of a call h(…, acc, …) whose non-error returns all
+// hand back append(<that parameter>, …); the call is made on every iteration (it dominates
+// the back edge source) and the back edge is taken only with the call's error found nil.
+func helperAppendsTo(ex *ssa.Extract, acc ssa.Value, backSrc *ssa.BasicBlock) bool {
+	call, ok := ex.Tuple.(*ssa.Call)
+	if !ok || !call.Block().Dominates(backSrc) {
+		return false
+	}
+	cal := staticCallee(call)
+	if cal == nil || cal.Blocks == nil {
+		return false
+	}
+	nres := cal.Signature.Results().Len()
+	if nres < 2 || !isErrorType(cal.Signature.Results().At(nres-1).Type()) {
+		return false
+	}
+	good := 0
+	for _, r := range returnsOf(cal) {
+		if provablyNonNilErr(r) {
+			continue
+		}
+		ap, ok := r.Results[ex.Index].(*ssa.Call)
+		if !ok {
+			return false
+		}
+		b, ok := ap.Call.Value.(*ssa.Builtin)
+		if !ok || b.Name() != "append" || len(ap.Call.Args) != 2 {
+			return false
+		}
+		par, ok := ap.Call.Args[0].(*ssa.Parameter)
+		if !ok {
+			return false
+		}
+		j := paramIndex(cal, par)
+		if j < 0 || j >= len(call.Call.Args) || call.Call.Args[j] != acc {
+			return false
+		}
+		// something is appended: a one-element varargs array, not an empty spread
+		sl, ok := ap.Call.Args[1].(*ssa.Slice)
+		if !ok {
+			return false
+		}
+		al, ok := sl.X.(*ssa.Alloc)
+		if !ok {
+			return false
+		}
+		if at, ok := deref(al.Type()).Underlying().(*types.Array); !ok || at.Len() < 1 {
+			return false
+		}
+		good++
+	}
+	if good == 0 {
+		return false
+	}
+	// the error of this call was found nil before going round again
+	gs := guardsAtBlock(backSrc)
+	if ifi, isIf := backSrc.Instrs[len(backSrc.Instrs)-1].(*ssa.If); isIf && len(backSrc.Succs) == 2 && backSrc.Succs[0] != backSrc.Succs[1] {
+		// the back edge itself is a branch of the test
+		for si, sb := range backSrc.Succs {
+			if sb.Dominates(backSrc) { // the loop header
+				gs = append(gs, Guard{Cond: ifi.Cond, Truth: si == 0})
+			}
+		}
+	}
+	for _, g := range gs {
+		for _, ge := range expandGuard(g) {
+			bo, ok := ge.Cond.(*ssa.BinOp)
+			if !ok || (bo.Op != token.EQL && bo.Op != token.NEQ) {
+				continue
+			}
+			if (bo.Op == token.EQL) != ge.Truth {
+				continue
+			}
+			for _, pr := range [][2]ssa.Value{{bo.X, bo.Y}, {bo.Y, bo.X}} {
+				e2, ok := pr[0].(*ssa.Extract)
+				if ok && e2.Tuple == ssa.Value(call) && e2.Index == nres-1 && isNilConst(pr[1]) {
+					return true
+				}
+			}
+		}
+	}
+	return false
 }
